@@ -1,2 +1,56 @@
 //! Verification harnesses compiled into heathcliff::util/number_theory as child module `verif_v`.
 #![allow(unused, dead_code, non_snake_case)]
+use super::*;
+
+#[cfg(kani)]
+mod proofs {
+    use super::*;
+
+    // @harness id=C04 tier=quick unwind=10 timeout=900
+    // @desc naf(v): the terms sum to v, every term is +-2^k, exponents strictly increase and no two are adjacent (non-adjacent form), for every |v| < 16
+    // @bounds |v| < 16 (rotation steps for N <= 32); larger ranges exhaust memory in Vec growth
+    // @funcs naf
+    #[kani::proof]
+    fn c04_naf() {
+        let v: i32 = kani::any(); kani::assume(v > -16 && v < 16);
+        let r = naf(v);
+        assert!(r.len() <= 5);
+        let mut sum = 0i32; let mut last_k: i32 = -2; let mut i = 0;
+        while i < 5 {
+            if i < r.len() {
+                let t = r[i]; sum += t;
+                let a = t.unsigned_abs();
+                assert!(a != 0 && a & (a - 1) == 0);
+                let k = a.trailing_zeros() as i32;
+                assert!(k > last_k + 1);
+                assert!((t < 0) == (v < 0));
+                last_k = k;
+            }
+            i += 1;
+        }
+        kani::cover!(r.len() >= 3);
+        assert!(sum == v);
+    }
+
+    // @harness id=C08 tier=quick unwind=20 timeout=900
+    // @desc gcd(x,y) divides both and equals the xgcd gcd; xgcd returns Bezout coefficients (g = a*x + b*y); try_invert_u64_mod_u64 returns the inverse exactly when gcd = 1; are_coprime agrees
+    // @bounds x, y < 2^10 (Euclid needs at most 15 steps below 2^10: unwind 20, recursion included)
+    // @funcs gcd, xgcd, try_invert_u64_mod_u64, are_coprime
+    #[kani::proof]
+    fn c08_gcd_xgcd_small() {
+        let x: u16 = kani::any(); let y: u16 = kani::any();
+        kani::assume(x < 1024 && y < 1024 && x > 0 && y > 0);
+        let (g, a, b) = xgcd(x as u64, y as u64);
+        assert!(g > 0 && (x as u64) % g == 0 && (y as u64) % g == 0);
+        assert!(a * x as i64 + b * y as i64 == g as i64);
+        assert!(gcd(x as u64, y as u64) == g);
+        assert!(are_coprime(x as u64, y as u64) == (g == 1));
+        let mut inv = 0u64;
+        let ok = try_invert_u64_mod_u64(x as u64, y as u64, &mut inv);
+        kani::cover!(ok && inv > 1);
+        if y > 1 { assert!(ok == (g == 1)); }
+        if ok && y > 1 { assert!(inv < y as u64 && (inv * x as u64) % y as u64 == 1); }
+    }
+
+    #[cfg(test)] include!("/verif/.build/playback/util_number_theory_v.rs");
+}
